@@ -64,8 +64,10 @@ pub fn run(args: &Args, mode: &str) -> i32 {
     let mut rep = Report::new(args, "model_checking");
     // C06 does not re-report C05's findings: at their trigger steps it accepts either outcome and
     // does not extend the history (the count is in the evidence)
-    let f2_open = rep.is_open("F2") || mode == "C06";
-    let f13_open = rep.is_open("F13") || mode == "C06";
+    // C06 shares C05's alphabet: C05's open findings cut its histories at their trigger steps too
+    let c05_open = |id: &str| mc::report::load_known_findings("C05").iter().any(|k| k.id == id && k.status == "open");
+    let f2_open = c05_open("F2");
+    let f13_open = c05_open("F13");
     let c05 = mode == "C05";
     let mut pool = Pool::new(mc::pool::default_workers(), hreg::run_history, true, Duration::from_secs(20));
     let depth = std::env::var("VERIF_DEPTH").ok().and_then(|s| s.parse().ok()).unwrap_or(args.tier.pick(if c05 { 7 } else { 5 }, if c05 { 10 } else { 8 }));
